@@ -141,6 +141,12 @@ pub fn vpool() -> BoxedStrategy<Vec<MVersion>> {
             let mut out: Vec<MVersion> = picks.iter().map(|(ti, gi)| MVersion::new(tuples[*ti].0, tuples[*ti].1, tuples[*ti].2).with_pre(tg[*gi].clone())).collect();
             out.sort_by(cmp_semver);
             out.dedup();
+            // now and then a pool version carries build metadata (it must never matter)
+            for (k, v) in out.iter_mut().enumerate() {
+                if (d as usize + k) % 7 == 0 {
+                    v.build = if k % 2 == 0 { vec![MId::Str("b".into())] } else { vec![MId::Num(7), MId::Str("x".into())] };
+                }
+            }
             out
         })
         .boxed()
